@@ -159,12 +159,12 @@ def handle_firmware_request(msg):
 def handle_id_request(msg):
     """Process an internal id request message."""
     node_id = msg.gateway.add_sensor()
-    return (
-        msg.copy(
-            ack=0, sub_type=msg.gateway.const.Internal["I_ID_RESPONSE"], payload=node_id
-        )
-        if node_id is not None
-        else None
+    if node_id is None:
+        return None
+    # A node was added: notify and mark the state as changed so that it is saved.
+    msg.gateway.alert(msg)
+    return msg.copy(
+        ack=0, sub_type=msg.gateway.const.Internal["I_ID_RESPONSE"], payload=node_id
     )
 
 
